@@ -156,13 +156,42 @@ def chk_poke(case):
     return []
 
 
-CASES = {"ids": chk_ids, "block": chk_block, "poke": chk_poke}
+def chk_ids1(case):
+    """one deserialisation, identifiers only (light enough for interleavings with two preemptions)"""
+    import bits.tx as btx
+    T = make_tx(case["seed"], dict(case["a"]), "c04")
+    raw = T.ser()
+    d = call(btx.tx_deser, raw, include_raw=True)
+    if d[0] != "ok" or not isinstance(d[1], (list, tuple)) or not isinstance(d[1][0], dict):
+        return [("C04/deser-raised/segwit", f"tx_deser = {str(d)[:100]} ({case.get('tname')})")]
+    dd = d[1][0]
+    out = []
+    if dd.get("txid") != T.txid().hex():
+        out.append(("C04/txid/segwit/no-trailing/other", f"txid {dd.get('txid')} != {T.txid().hex()} ({case.get('tname')})"))
+    if dd.get("wtxid") != T.wtxid().hex():
+        out.append(("C04/wtxid/segwit/no-trailing", f"wtxid {dd.get('wtxid')} != {T.wtxid().hex()} ({case.get('tname')})"))
+    if dd.get("raw") != raw.hex():
+        out.append(("C04/raw/segwit/no-trailing", f"raw differs ({case.get('tname')})"))
+    return out
+
+
+def light_ops(job):
+    seed = job["seed"]
+    tiny = {"segwit": True, "n_in": 1, "n_out": 1, "seq0": "fffffffe", "seqrest": "ffffffff", "ss0": 0, "ssrest": 0, "spk0": 2, "spkrest": 2,
+            "wit0": [2], "witrest": [], "version": 2, "locktime": 0, "prevout0": "normal"}
+    return [("ids1", {"seed": seed, "a": tiny, "tname": "tiny segwit A"}), ("ids1", {"seed": seed, "a": dict(tiny, locktime=9, seq0="00000001"), "tname": "tiny segwit B"}),
+            ("ids1", {"seed": seed, "a": dict(tiny, n_in=2, witrest=[1]), "tname": "two-input segwit"})]
+
+
+LIGHT_SCEN = [((0, 1), ()), ((1, 2), (0,))]
+CASES = {"ids": chk_ids, "block": chk_block, "poke": chk_poke, "ids1": chk_ids1}
 
 
 def run_case(kind, case):
     if kind == "concurcase":
         from vf import concur
-        return concur.replay_cases(run_case, PROPERTY, case, CONCUR_FILES)
+        light = bool(case.get("threads") and case["threads"][0][0] == "ids1")
+        return concur.replay_cases(run_case, PROPERTY, case, ("bits/tx.py",) if light else CONCUR_FILES)
     if kind == "interrupted":
         from vf import seqexplore
         return seqexplore.replay_interrupted(run_case, case)
@@ -202,10 +231,16 @@ def jobs(tier, seed):
     nsh = 16 if tier == "quick" else 48
     from vf.runner import seq_jobs
     return [{"name": f"ids/{sh}", "part": "ids", "shard": [sh, nsh], "weight": 5} for sh in range(nsh)] + \
-        [{"name": "block", "part": "block", "weight": 2}, {"name": "huge", "part": "huge", "weight": 8}] + seq_jobs(3, weight=3) + __import__("vf.runner", fromlist=["x"]).long_jobs() + __import__("vf.runner", fromlist=["x"]).interrupt_jobs(len(INTERRUPT_X)) + __import__("vf.runner", fromlist=["x"]).concur_jobs(len(CONCUR_SCEN) - (1 if tier == "quick" else 0))
+        [{"name": "block", "part": "block", "weight": 2}, {"name": "huge", "part": "huge", "weight": 8}] + seq_jobs(3, weight=3) + __import__("vf.runner", fromlist=["x"]).long_jobs() + __import__("vf.runner", fromlist=["x"]).interrupt_jobs(len(INTERRUPT_X)) + __import__("vf.runner", fromlist=["x"]).concur_jobs(len(CONCUR_SCEN) - (1 if tier == "quick" else 0)) + \
+        [{"name": f"concurrent-light/{i}", "part": "concurcase", "idx": i, "curve": None, "deep": 1, "weight": 8} for i in range(len(LIGHT_SCEN))]
 
 
 def run_job(job):
+    if job["part"] == "concurcase" and job["name"].startswith("concurrent-light"):
+        from vf.runner import run_concur_job
+        ops = light_ops(job)
+        scens = [{"threads": [ops[i] for i in sc[0]], "warm": [ops[i] for i in sc[1]]} for sc in LIGHT_SCEN]
+        return run_concur_job(job, scens, run_case, PROPERTY, ("bits/tx.py",), alphabet=ops)
     if job["part"] == "concurcase":
         from vf.runner import run_concur_job
         ops = seq_ops(dict(job, shard=[0, 1]))
